@@ -288,4 +288,107 @@ theorem satSub_pos (a b : Int) (h : 0 < a - b) : ¬ satSub a b ≤ 0 := by
   · omega
   · split <;> omega
 
+/-! ### end instants of actions and the bounds of the closed-world runs (helpers of `C04_run_end_bounded`, `C04_sim_*`) -/
+
+/-- instant at which an action is over: a shot when the response has arrived, a discard when it is reported -/
+def endT : Ev → Int
+  | .shoot it => it.env.ret + it.dur
+  | .discard it _ => it.env.ret
+
+/-- `B + (k+1)·step` without a product -/
+def chainBound (B step : Int) : Nat → Int
+  | 0 => B + step
+  | k + 1 => chainBound B step k + step
+
+/-- time one pass costs: overheads plus the response -/
+def passCost (p : Delays) : Int := p.dPick + p.dNow + p.dArm + p.dLag + p.dur
+
+def sumCost : List Delays → Int
+  | [] => 0
+  | p :: ps => passCost p + sumCost ps
+
+/-- the end of the action of a generated pass is the instant `simNext` at which the next pass starts -/
+theorem endT_sim_head (d : Bool) (w' : Waiter) (it : Iter) (s : DiscardSample) :
+    endT (if fires d (isSlowDown w' false) = true then Ev.shoot it else Ev.discard it s) = simNext d w' it := by
+  unfold simNext
+  split <;> simp [endT]
+
+theorem sim_end_by_aux (v : Variant) (d : Bool) (M : Int) (toks : List Int) :
+    ∀ (w : Waiter) (t c : Int) (ps : List Delays), (∀ tok ∈ toks, tok ≤ M) → 0 ≤ c → t ≤ M + c →
+      ∀ k ev, (runLoop v d w (simHist v d w t toks ps)).1[k]? = some ev → endT ev ≤ M + c + sumCost (ps.take (k + 1)) := by
+  induction toks with
+  | nil => intro w t c ps _ _ _ k ev hk; simp [simHist, runLoop, simLast] at hk
+  | cons tok toks ih =>
+    intro w t c ps htoks hc ht k ev hk
+    cases ps with
+    | nil => simp [simHist, runLoop] at hk
+    | cons p ps =>
+      rw [runLoop_simHist_cons] at hk
+      have htok : tok ≤ M := htoks tok (by simp)
+      have hcost : 0 ≤ passCost p := by unfold passCost; omega
+      -- the end of this pass's action
+      have hend : simNext d (waitV v w (simIter t tok p).env).w (simIter t tok p) ≤ M + c + passCost p := by
+        unfold simNext passCost
+        simp only [simIter]
+        split <;> split <;> omega
+      cases k with
+      | zero =>
+        simp only [List.getElem?_cons_zero, Option.some.injEq] at hk
+        subst hk
+        rw [endT_sim_head]
+        simp only [List.take_succ_cons, List.take_zero, sumCost]
+        omega
+      | succ k =>
+        simp only [List.getElem?_cons_succ] at hk
+        have := ih _ _ (c + passCost p) ps (fun x hx => htoks x (by simp [hx])) (by omega) (by omega) k ev hk
+        simp only [List.take_succ_cons, sumCost]
+        omega
+
+theorem chainBound_shift (B step : Int) (k : Nat) : chainBound (B + step) step k = chainBound B step (k + 1) := by
+  induction k with
+  | zero => simp [chainBound]
+  | succ k ih => simp only [chainBound, ih]
+
+theorem sim_on_aux (start D R ε δ : Int) (hε : 0 ≤ ε) (hδ : 0 ≤ δ) (hR : 0 ≤ R) (toks : List Int) :
+    ∀ (w : Waiter) (t B' : Int) (ps : List Delays), w.lastNow ≤ t → (∀ tok ∈ toks, tok ≤ start + D) →
+      (∀ p ∈ ps, (p.dur : Int) ≤ R ∧ (p.dPick : Int) ≤ δ ∧ (p.dNow : Int) + p.dArm + p.dLag ≤ ε) →
+      start + D + maxOverdue + ε + R ≤ B' → t ≤ B' →
+      ∀ k ev, (runLoop .fresh true w (simHist .fresh true w t toks ps)).1[k]? = some ev → endT ev ≤ chainBound B' (δ + ε) k := by
+  have hm : (0 : Int) ≤ maxOverdue := by decide
+  induction toks with
+  | nil => intro w t B' ps _ _ _ _ _ k ev hk; simp [simHist, runLoop, simLast] at hk
+  | cons tok toks ih =>
+    intro w t B' ps hw htoks hps hB ht k ev hk
+    cases ps with
+    | nil => simp [simHist, runLoop] at hk
+    | cons p ps =>
+      rw [runLoop_simHist_cons] at hk
+      have htok : tok ≤ start + D := htoks tok (by simp)
+      obtain ⟨hp1, hp2, hp3⟩ := hps p (by simp)
+      -- the action of this pass is over by B' + δ + ε
+      have hend : simNext true (waitV .fresh w (simIter t tok p).env).w (simIter t tok p) ≤ B' + (δ + ε) := by
+        unfold simNext
+        by_cases hfire : fires true (isSlowDown (waitV .fresh w (simIter t tok p).env).w false) = true
+        · have hlt := sim_fired_lt w t tok p hw hfire
+          simp only [hfire, ↓reduceIte]
+          simp only [simIter] at hlt ⊢
+          split <;> omega
+        · simp only [hfire, Bool.false_eq_true, ↓reduceIte]
+          simp only [simIter]
+          split <;> omega
+      cases k with
+      | zero =>
+        simp only [List.getElem?_cons_zero, Option.some.injEq] at hk
+        subst hk
+        rw [endT_sim_head]
+        simp only [chainBound]
+        exact hend
+      | succ k =>
+        simp only [List.getElem?_cons_succ] at hk
+        have hw' := sim_lastNow_le .fresh true w t tok p hw
+        have := ih _ _ (B' + (δ + ε)) ps hw' (fun x hx => htoks x (by simp [hx])) (fun x hx => hps x (by simp [hx]))
+          (by omega) hend k ev hk
+        rw [chainBound_shift] at this
+        exact this
+
 end Pandora.Proofs.C04
